@@ -21,7 +21,12 @@ DocsB == {
   Obj(<<Pair("a", Arr(<<Obj(<<Pair("b", Obj(<<Pair("a", N1)>>))>>), Arr(<<N2, Arr(<<N3>>)>>)>>)), Pair("c", Str("a"))>>),
   Obj(<<Pair("c", N1), Pair("b", N2), Pair("a", N3), Pair("d", Null)>>),
   Arr(<<Str("x"), Str(""), N1, Null, Obj(<<Pair("a", Str("x"))>>)>>) }
-Docs == IF DocSet = "small" THEN DocsA ELSE DocsA \cup DocsB
+\* literals that are neither integers, strings nor null: booleans and number texts with a fraction / an exponent
+DocsC == {
+  Obj(<<Pair("a", Lit("true")), Pair("b", Lit("1.5")), Pair("z", Arr(<<Lit("false"), Lit("1e3"), Lit("2.0"), Lit("-0.5"), N1>>))>>),
+  Arr(<<Lit("true"), Lit("1.5"), Obj(<<Pair("a", Lit("false")), Pair("a", Lit("true")), Pair("b", Lit("1e3"))>>)>>),
+  Lit("false"), Lit("1e3") }
+Docs == IF DocSet = "small" THEN DocsA ELSE DocsA \cup DocsB \cup DocsC
 
 Steps == {StepI(i) : i \in (0 - 1)..3} \cup {StepK(k) : k \in {"a", "b", "z", ""}}
 RECURSIVE PathsUpTo(_)
